@@ -26,9 +26,10 @@ META = {
     'text': 'n <= 3 statements with every behaviour vector over {raises synchronously, completes before returning ok/error, completes '
             'later from another thread ok/error} (n = 3: concurrency 2; thorough: concurrency 1..3, and n = 4 over a 3-behaviour subset), '
             'plus every vector over the three caller-thread behaviours for n <= 4 (thorough 5); concurrency 1..n, '
-            'fail-fast on/off, variants list / generator / async-future; one client thread and one completer thread (thorough: two), '
+            'fail-fast on/off, variants list / generator / async-future; one client thread and one completer thread (thorough: also two, '
+            'for n = 2 and for n = 3 over the subset at concurrency 2), '
             'scheduling points at every line of cassandra/concurrent.py and of ResponseFuture.add_callback(s)/add_errback/'
-            'clear_callbacks/_set_final_*; preemption bound 1 (thorough 2).  Oracle: one result per statement at its own position, '
+            'clear_callbacks/_set_final_*; preemption bound 1 (thorough: 2 for n <= 2 with one completer, 1 otherwise).  Oracle: one result per statement at its own position, '
             'peak in-flight <= concurrency, fail-fast raises THE FIRST failure: the stub logs every failure, execute_async entry and '
             'returned completion with its thread in the serialised order; a failure is certainly later than another when it follows it '
             'in the same thread, or after that thread came back to the stub; the raised failure must be one with no certainly-earlier '
@@ -148,7 +149,31 @@ class CountingFuture(_RealFuture):
         return _RealFuture.set_exception(self, e)
 
 
-@sched.gc_quiet
+def _gc_outside(fn):
+    """Like sched.gc_quiet (no cyclic collection inside an execution: a collection that starts in a virtual thread while
+    the line tracer is active has been seen to stall executions whose statements raise, and would make step counts
+    depend on the allocator), but the collection between executions is done every 64th execution only: a full
+    gc.collect() after each of these ~2 ms executions cost 45% extra."""
+    import functools
+    import gc
+    calls = [0]
+
+    @functools.wraps(fn)
+    def wrapper(*a, **kw):
+        was = gc.isenabled()
+        gc.disable()
+        try:
+            return fn(*a, **kw)
+        finally:
+            calls[0] += 1
+            if calls[0] % 64 == 0:
+                gc.collect()
+            if was:
+                gc.enable()
+    return wrapper
+
+
+@_gc_outside
 def harness(params, prefix, part):
     beh, conc, ff, variant, ncompleters = params['beh'], params['conc'], params['ff'], params['variant'], params.get('completers', 1)
     s = sched.Scheduler(prefix, focus=FOCUS, focus_files=('cassandra/concurrent.py',), horizon=8000)
@@ -317,30 +342,42 @@ def configs(ctx):
             for conc in range(1, n + 1):
                 add(beh, conc)
     if ctx.thorough:
-        out += [dict(c, completers=2) for c in out if sum(1 for b in c['beh'] if b.startswith('later')) >= 2 and len(c['beh']) <= 3]
+        # two completer threads (bound 1 already yields ~4000 schedules per configuration): n = 2 every vector with two
+        # later completions, n = 3 over the 3-behaviour subset at concurrency 2
+        out += [dict(c, completers=2) for c in out if sum(1 for b in c['beh'] if b.startswith('later')) >= 2 and
+                (len(c['beh']) == 2 or (len(c['beh']) == 3 and c['conc'] == 2 and set(c['beh']) <= set(sub3)))]
     return out
 
 
+def bound_of(ctx, params):
+    """Preemption bound of a configuration: quick 1; thorough 2 for n <= 2 statements with one completer (measured:
+    1.2 million schedules), 1 for the larger configurations (bound 2 there is ~30 000 schedules per configuration)."""
+    if ctx.thorough and len(params['beh']) <= 2 and params.get('completers', 1) == 1:
+        return 2
+    return 1
+
+
 def run(ctx):
-    bound = 1 if ctx.quick else 2
     cfgs = ctx.rotate(configs(ctx))
     # one exploration per configuration would fork a pool each; run configurations as first-level data
     ctx.count('configs', len(cfgs))
-    parts = ctx.pmap(_explore_cfg_chunk, [(cfgs[i::ctx.nproc * 2], bound) for i in range(ctx.nproc * 2) if cfgs[i::ctx.nproc * 2]])
+    work = [(c, bound_of(ctx, c)) for c in cfgs]
+    nchunks = ctx.nproc * (2 if ctx.quick else 16)
+    parts = ctx.pmap(_explore_cfg_chunk, [work[i::nchunks] for i in range(nchunks) if work[i::nchunks]])
     for part in parts:
         ctx.merge(part)
     ctx.count('states', ctx.counters.get('executions', 0))
-    ctx.cov['preemption_bound'] = bound
+    ctx.cov['preemption_bound'] = max(b for _, b in work)
+    ctx.cov['preemption_bound_by_size'] = {'n<=2, one completer': bound_of(ctx, {'beh': [0]}), 'larger': 1}
     ctx.cov['rule'] = ('every configuration (behaviour vector, concurrency, fail-fast, variant) x every schedule within the preemption '
                        'bound; non-trivial = execution with a non-default scheduling choice; first_failure_judged = fail-fast executions whose '
                        'raised failure was compared with the admissible first failures, first_failure_unique = those with exactly one admissible')
     ctx.cov['exhaustive'] = True
 
 
-def _explore_cfg_chunk(args):
-    cfgs, bound = args
+def _explore_cfg_chunk(work):
     part = Part()
-    for params in cfgs:
+    for params, bound in work:
         frontier = [[]]
         while frontier:
             nxt = []
